@@ -64,6 +64,7 @@ fn run_job(job: &Value) -> Value {
         fiemap_flagbits: gu(k, "fiemap_flagbits").unwrap_or(0),
         getdents: gs(k, "getdents").unwrap_or("perm").to_string(),
         wake_any: gb(k, "wake_any"),
+        time_jump_p: k.get("time_jump_p").and_then(|v| v.as_f64()).unwrap_or(0.0),
     };
     let sched = SchedCfg {
         kind: gs(s, "kind").unwrap_or("random").to_string(),
